@@ -240,6 +240,7 @@ impl<'a> RecordIter<'a> {
         let ghost b0 = buf@.len();
 //@@ loop 0
             invariant
+                //# C03.skip_scan_in_step
                 s0 == old(self).rem(), b0 == old(buf)@.len(),
                 cur == self.rem(),
                 cur.len() <= s0.len(),
@@ -259,6 +260,7 @@ impl<'a> RecordIter<'a> {
                 proof { assert(is_start(bounds@, typ as int)); }
 //@@ loop 1
                     invariant
+                        //# C03.skip_block_in_step
                         s0 == old(self).rem(), b0 == old(buf)@.len(),
                         first_of(s0, record_type as int, bounds@) is Blocked,
                         buf@.len() >= b0,
@@ -290,6 +292,11 @@ pub proof fn axiom_string_eq_str()
         <String as vstd::std_specs::cmp::PartialEqSpec<str>>::obeys_eq_spec(),
         forall|a: String, b: &str| #[trigger] <String as vstd::std_specs::cmp::PartialEqSpec<str>>::eq_spec(&a, b) == (a@ == b@),
 {}
+// TRUSTED: A-std -- str::eq_ignore_ascii_case doc: "Checks that two strings are an ASCII case-insensitive match" (not called by the
+// unchanged code; declared so that an edit of the sheet lookup to a case-insensitive comparison is decided instead of rejected)
+pub uninterp spec fn ascii_lower(s: Seq<char>) -> Seq<char>;
+pub assume_specification[ str::eq_ignore_ascii_case ](a: &str, b: &str) -> (r: bool)
+    ensures r == (ascii_lower(a@) == ascii_lower(b@));
 // TRUSTED: A-std -- Option::copied doc: "Maps an Option<&T> to an Option<T> by copying the contents of the option."
 pub assume_specification<'a, T: Copy>[ Option::<&'a T>::copied ](o: Option<&'a T>) -> (r: Option<T>)
     ensures r == (match o { Some(x) => Some(*x), None => None });
@@ -678,6 +685,54 @@ proof fn lemma_xti_chunks(b: Seq<u8>, pl: Seq<u8>)
         }
     }
 }
+
+// ---- witnesses: the specification functions are satisfiable / mean what the format says on concrete bytes; every `requires` has an instance
+/// BrtEndBundleShs as Excel writes it (type 90 01, size 00) ends the sheet list at once: the declared sheets are those collected so far
+proof fn witness_wb1_end(st: WbSt, rels: Map<Vec<u8>, String>)
+    ensures wb1(seq![0x90u8, 0x01u8, 0x00u8], st, rels) == (Wb1::Done { st, rest: Seq::<u8>::empty() }),
+{
+    let s = seq![0x90u8, 0x01u8, 0x00u8];
+    assert(vhdr(seq![0x90u8, 0x01u8, 0x00u8], 2) == 2 && varint_type(seq![0x90u8, 0x01u8, 0x00u8]) == 0x90) by (compute);
+    assert(s.skip(2) =~= seq![0x00u8]);
+    assert(vhdr(seq![0x00u8], 4) == 1 && varint_len(seq![0x00u8]) == 0) by (compute);
+    assert(rec_sl(s) == 1 && rec_len(s) == 0 && rec_total(s) == 3);
+    assert(rec_ok(s));
+    assert(rec_rest(s) =~= Seq::<u8>::empty());
+    lemma_wb1_step(s, st, rels);
+}
+/// BrtWbProp with f1904 set (type 99 01, size 01, flags 01) followed by BrtEndBundleShs: the 1904 date system is reported
+proof fn witness_wb1_1904(rels: Map<Vec<u8>, String>)
+    ensures ({ let w = wb1(seq![0x99u8, 0x01u8, 0x01u8, 0x01u8, 0x90u8, 0x01u8, 0x00u8], WbSt { is_1904: false, sheets: Seq::empty() }, rels);
+               w is Done && w->st.is_1904 && w->st.sheets.len() == 0 }),
+{
+    let s = seq![0x99u8, 0x01u8, 0x01u8, 0x01u8, 0x90u8, 0x01u8, 0x00u8];
+    let st = WbSt { is_1904: false, sheets: Seq::<SheetDecl>::empty() };
+    assert(vhdr(seq![0x99u8, 0x01u8, 0x01u8, 0x01u8, 0x90u8, 0x01u8, 0x00u8], 2) == 2
+        && varint_type(seq![0x99u8, 0x01u8, 0x01u8, 0x01u8, 0x90u8, 0x01u8, 0x00u8]) == 0x99) by (compute);
+    assert(s.skip(2) =~= seq![0x01u8, 0x01u8, 0x90u8, 0x01u8, 0x00u8]);
+    assert(vhdr(seq![0x01u8, 0x01u8, 0x90u8, 0x01u8, 0x00u8], 4) == 1 && varint_len(seq![0x01u8, 0x01u8, 0x90u8, 0x01u8, 0x00u8]) == 1) by (compute);
+    assert(rec_sl(s) == 1 && rec_len(s) == 1 && rec_total(s) == 4);
+    assert(rec_ok(s));
+    assert(rec_payload(s) =~= seq![0x01u8]);
+    assert(rec_rest(s) =~= seq![0x90u8, 0x01u8, 0x00u8]);
+    lemma_wb1_step(s, st, rels);
+    witness_wb1_end(WbSt { is_1904: true, ..st }, rels);
+}
+/// instances of the preconditions declared in this unit
+proof fn witness_requires(k: Vec<u8>, v: String)
+    ensures
+        // verif_rel_index
+        rel_lookup(Map::<Vec<u8>, String>::empty().insert(k, v), k@) is Some,
+        // wide_str: an empty string
+        seq![0u8, 0u8, 0u8, 0u8].len() >= 4 && ws_ok(seq![0u8, 0u8, 0u8, 0u8], 0),
+        // lemma_styles_seek
+        (StMode::Fmts { left: 1 }) is Fmts,
+{
+    let m = Map::<Vec<u8>, String>::empty().insert(k, v);
+    assert(m.contains_key(k) && k@ == k@);
+    assert(seq![0u8, 0u8, 0u8, 0u8].subrange(0, 4) =~= seq![0u8, 0u8, 0u8, 0u8]);
+}
+fn witness_capped() { let _v: Vec<u8> = verif_with_capacity_capped(16); }
 
 // =====================================================================================================================
 // SPECIFICATION of xl/workbook.bin, second half: BrtExternSheet and BrtName records up to the first "after names" record
@@ -1118,9 +1173,12 @@ pub open spec fn strs(v: Seq<String>) -> Seq<Seq<char>> { v.map_values(|s: Strin
                 // same framing rule as in workbook.bin
                 //# C03,C10.styles_unknown_records_skipped_whole
                 cur == iter.rem(),
+                //# C06.styles_buffer_cleared
                 buf@.len() == 0,
+                //# C10.styles_scan_in_step
                 bad || (tot == styles(cur, st) && st.mode is Top),
             invariant
+                //# C10,C07.styles_loop_frame
                 part_bytes(old(self).zip, styles_path()) is Some, s0 == part_bytes(old(self).zip, styles_path())->Some_0,
                 st0 == (StSt { custom: Map::<u16, CellFormat>::empty(), xfs: Seq::<CellFormat>::empty(), mode: StMode::Top }),
                 tot == styles(s0, st0), f0 == old(self).formats@, bad == (tot is Malformed),
@@ -1129,6 +1187,7 @@ pub open spec fn strs(v: Seq<String>) -> Seq<Seq<char>> { v.map_values(|s: Strin
                 bad || self.formats@ == f0 + st.xfs,
                 self.sheets@ == old(self).sheets@, self.strings@ == old(self).strings@, self.is_1904 == old(self).is_1904,
             ensures
+                //# C10.styles_scan_result
                 bad || tot == (Styles::Done { xfs: st.xfs }),
             decreases iter.rem().len(),
 //@@ before /match iter\.read_type\(\)\? \{/
@@ -1137,12 +1196,13 @@ pub open spec fn strs(v: Seq<String>) -> Seq<Seq<char>> { v.map_values(|s: Strin
 //@@ after /let _len = iter\.fill_buffer\(&mut buf\)\?;/#0of2
                     let ghost pl = rec_payload(h);
                     proof { lemma_rec_read(h); assert(buf@ =~= pl); cur = rec_rest(h); }
-//@@ after /let len = read_usize\(&buf\);/#0of2
+//@@ after /let len = read_usize\([^;]*;/#0of2
                     proof {
                         if pl.len() >= 4 { st = StSt { mode: if le32(pl) == 0 { StMode::Top } else { StMode::Fmts { left: le32(pl) as nat } }, ..st }; }
                     }
 //@@ loop 1 it
                         invariant
+                            //# C10.fmt_run_in_step
                             part_bytes(old(self).zip, styles_path()) is Some, s0 == part_bytes(old(self).zip, styles_path())->Some_0,
                             st0 == (StSt { custom: Map::<u16, CellFormat>::empty(), xfs: Seq::<CellFormat>::empty(), mode: StMode::Top }),
                             tot == styles(s0, st0), f0 == old(self).formats@, bad == (tot is Malformed),
@@ -1154,7 +1214,7 @@ pub open spec fn strs(v: Seq<String>) -> Seq<Seq<char>> { v.map_values(|s: Strin
                             forall|k: u16| #[trigger] st.custom.contains_key(k) ==> fmt_id_ok(k as int),
                             bad || self.formats@ == f0 + st.xfs,
                             self.sheets@ == old(self).sheets@, self.strings@ == old(self).strings@, self.is_1904 == old(self).is_1904,
-//@@ before /let _ = iter\.next_skip_blocks\(0x002C/
+//@@ before /let _ = iter\.next_skip_blocks\(/#0of2
                         let ghost g = cur;
                         let ghost f = first_of(g, 0x002C, Seq::<(u16, Option<u16>)>::empty());
                         proof {
@@ -1164,7 +1224,7 @@ pub open spec fn strs(v: Seq<String>) -> Seq<Seq<char>> { v.map_values(|s: Strin
                             if !bad { lemma_styles_seek(g, st, 0x002C); }
                             if f is Found { lemma_styles_step(f->at, st); lemma_first_of_at(g, 0x002C, Seq::<(u16, Option<u16>)>::empty()); }
                         }
-//@@ after /let _ = iter\.next_skip_blocks\(0x002C[^;]*;/
+//@@ after /let _ = iter\.next_skip_blocks\([^;]*;/#0of2
                         proof { cur = iter.rem(); }
 //@@ before /number_formats\s*\.insert\(/
                         proof {
@@ -1189,12 +1249,13 @@ pub open spec fn strs(v: Seq<String>) -> Seq<Seq<char>> { v.map_values(|s: Strin
 //@@ after /let _len = iter\.fill_buffer\(&mut buf\)\?;/#1of2
                     let ghost pl = rec_payload(h);
                     proof { lemma_rec_read(h); assert(buf@ =~= pl); cur = rec_rest(h); }
-//@@ after /let len = read_usize\(&buf\);/#1of2
+//@@ after /let len = read_usize\([^;]*;/#1of2
                     proof {
                         if pl.len() >= 4 { st = StSt { mode: StMode::Xfs { left: le32(pl) as nat }, ..st }; }
                     }
 //@@ loop 2 it
                         invariant
+                            //# C10.xf_run_in_step
                             part_bytes(old(self).zip, styles_path()) is Some, s0 == part_bytes(old(self).zip, styles_path())->Some_0,
                             st0 == (StSt { custom: Map::<u16, CellFormat>::empty(), xfs: Seq::<CellFormat>::empty(), mode: StMode::Top }),
                             tot == styles(s0, st0), f0 == old(self).formats@, bad == (tot is Malformed),
@@ -1206,7 +1267,7 @@ pub open spec fn strs(v: Seq<String>) -> Seq<Seq<char>> { v.map_values(|s: Strin
                             forall|k: u16| #[trigger] st.custom.contains_key(k) ==> fmt_id_ok(k as int),
                             bad || self.formats@ == f0 + st.xfs,
                             self.sheets@ == old(self).sheets@, self.strings@ == old(self).strings@, self.is_1904 == old(self).is_1904,
-//@@ before /let _ = iter\.next_skip_blocks\(0x002F/
+//@@ before /let _ = iter\.next_skip_blocks\(/#1of2
                         let ghost g = cur;
                         let ghost f = first_of(g, 0x002F, Seq::<(u16, Option<u16>)>::empty());
                         let ghost fv = self.formats@;
@@ -1217,9 +1278,9 @@ pub open spec fn strs(v: Seq<String>) -> Seq<Seq<char>> { v.map_values(|s: Strin
                             if !bad { lemma_styles_seek(g, st, 0x002F); }
                             if f is Found { lemma_styles_step(f->at, st); lemma_first_of_at(g, 0x002F, Seq::<(u16, Option<u16>)>::empty()); }
                         }
-//@@ after /let _ = iter\.next_skip_blocks\(0x002F[^;]*;/
+//@@ after /let _ = iter\.next_skip_blocks\([^;]*;/#1of2
                         proof { cur = iter.rem(); }
-//@@ after /let fmt_code = read_u16\(&buf\[2\.\.4\]\);/
+//@@ after /let fmt_code = read_u16\([^;]*;/#1of2
                         proof {
                             let p = rec_payload(f->at);
                             if f is Found && p.len() >= 4 {
@@ -1266,7 +1327,7 @@ pub open spec fn strs(v: Seq<String>) -> Seq<Seq<char>> { v.map_values(|s: Strin
             let bl: [(u16, Option<u16>); 0] = [];
             assert(bl@ =~= Seq::<(u16, Option<u16>)>::empty());
         }
-//@@ after /let len = read_usize\(&buf\[4\.\.8\]\);/
+//@@ after /let len = read_usize\([^;]*;/
         let ghost t0 = first_of(s0, 0x009F, Seq::<(u16, Option<u16>)>::empty());
         let ghost s1 = iter.rem();
         let ghost mut items = Seq::<Seq<char>>::empty();
@@ -1282,6 +1343,7 @@ pub open spec fn strs(v: Seq<String>) -> Seq<Seq<char>> { v.map_values(|s: Strin
         }
 //@@ loop 0 it
             invariant
+                //# C19.sst_items_in_step
                 part_bytes(old(self).zip, sst_path()) is Some,
                 s0 == part_bytes(old(self).zip, sst_path())->Some_0, str0 == old(self).strings@,
                 !good ==> !(sst_part(s0) is Done) && !(sst_part(s0) is Truncated),
@@ -1290,7 +1352,7 @@ pub open spec fn strs(v: Seq<String>) -> Seq<Seq<char>> { v.map_values(|s: Strin
                 good && !(tot is Malformed) && !(tot is Blocked) ==> strs(self.strings@) == strs(str0) + items,
                 it.index@ <= len,
                 self.sheets@ == old(self).sheets@, self.formats@ == old(self).formats@, self.is_1904 == old(self).is_1904,
-//@@ before /let _ = iter\.next_skip_blocks\(\s*0x0013/
+//@@ before /let _ = iter\.next_skip_blocks\(/#1of2
             let ghost h = iter.rem();
             let ghost sv = self.strings@;
             let ghost f = first_of(h, 0x0013, sst_bounds());
@@ -1381,11 +1443,17 @@ impl Xlsb<VerifRs> {
                 // the reader is at a record boundary at the top of every iteration: `cur` only ever advances by whole records
                 //# C03,C16.unknown_records_skipped_whole
                 cur == iter.rem(),
+                //# C06.workbook_buffer_cleared
                 buf@.len() == 0,
+                // what remains to be read, read from the state reached, is what the whole part says
+                //# C16.sheet_list_scan_in_step
                 wb1(s0, st0, rels) is Malformed || wb1(s0, st0, rels) == wb1(cur, st, rels),
             invariant
+                //# C16.date_system_in_step
                 wb1(s0, st0, rels) is Malformed || self.is_1904 == st.is_1904,
+                //# C16.sheet_lists_in_step
                 wb1(s0, st0, rels) is Malformed || sheets_ok(self.metadata.sheets@.skip(m0), self.sheets@.skip(n0), st.sheets),
+                //# C16,C07.workbook_loop_frame
                 self.metadata.sheets@.len() >= m0, self.metadata.sheets@.take(m0) == old(self).metadata.sheets@,
                 self.sheets@.len() >= n0, self.sheets@.take(n0) == old(self).sheets@,
                 m0 == old(self).metadata.sheets@.len(), n0 == old(self).sheets@.len(),
@@ -1400,6 +1468,7 @@ impl Xlsb<VerifRs> {
                 s0 == part_bytes(old(self).zip, wb_path())->Some_0, part_bytes(old(self).zip, wb_path()) is Some,
                 st0 == (WbSt { is_1904: old(self).is_1904, sheets: Seq::empty() }),
             ensures
+                //# C16.sheet_list_scan_result
                 wb1(s0, st0, rels) is Malformed || wb1(s0, st0, rels) == (Wb1::Done { st, rest: cur }),
                 cur == iter.rem(),
             decreases iter.rem().len(),
@@ -1427,9 +1496,9 @@ impl Xlsb<VerifRs> {
                         assert(buf@ =~= pl);
                         cur = rec_rest(h);
                     }
-//@@ after /let rel_len = read_u32\(&buf\[8\.\.len\]\);/
+//@@ after /let rel_len = read_u32\([^;]*;/
                     let ghost rl32 = rel_len as int;
-//@@ after /let relid = &buf\[12\.\.12 \+ rel_len\];/
+//@@ after /let relid = &buf\[[^;]*;/
                         let ghost relid_bytes = relid@;
 //@@ before /let path = /
                         let ghost hs = le32(buf@);
@@ -1465,7 +1534,7 @@ impl Xlsb<VerifRs> {
                                 assert(folder_type(path@) == Some(typ));
                             }
                         }
-//@@ after /self\.sheets\.push\(\(name\.into_owned\(\), path\)\);/
+//@@ after /self\.sheets\.push\([^;]*;/
                         proof {
                             assert(self.metadata.sheets@.drop_last() =~= ms_before);
                             assert(self.sheets@.drop_last() =~= ss_before);
@@ -1505,9 +1574,13 @@ impl Xlsb<VerifRs> {
                 // same framing rule in the second half of the part
                 //# C03,C16.unknown_records_skipped_whole_after_sheets
                 cur == iter.rem(),
+                //# C14,C16.names_scan_in_step
                 wb2(c1, st2_0, shn) is Malformed || wb2(c1, st2_0, shn) == wb2(cur, st2, shn),
+                //# C14,C16.names_list_in_step
                 wb2(c1, st2_0, shn) is Malformed || pairs(defined_names@) == st2.names,
+                //# C14.extern_sheets_in_step
                 wb2(c1, st2_0, shn) is Malformed || strs(self.extern_sheets@) == st2.ext,
+                //# C16,C07.names_loop_frame
                 names_of(self.sheets@) == shn,
                 wb1(s0, st0, rels) is Malformed || shn == oldn + decl_names(st.sheets),
                 st2_0 == (Wb2St { names: Seq::empty(), ext: olde }),
@@ -1577,7 +1650,7 @@ impl Xlsb<VerifRs> {
                     let ghost dn_before = defined_names@;
 //@@ before /let formula = parse_formula\(/
                     proof { lemma_name_arm(pl, buf@, name_sub, str_len as int, buf@.skip(9 + str_len as int), rgce@); }
-//@@ after /defined_names\.push\(\(name, formula\)\);/
+//@@ after /defined_names\.push\([^;]*;/
                     proof {
                         if name_wf(pl) && !(wb2(c1, st2_0, shn) is Malformed) {
                             assert(defined_names@ =~= dn_before.push(defined_names@.last()));
@@ -1645,6 +1718,7 @@ buf[0] &
         proof { assert(all.take(0) =~= Seq::<Cell<String>>::empty()); assert(all.skip(0) =~= all); }
 //@@ loop 0
             invariant
+                //# C14.formula_cells_in_step
                 0 <= k <= all.len(), cells_reader.formulas() == all.skip(k),
                 cells@ == nonempty_formulas(all.take(k)),
                 old(self).knows(name@),
